@@ -326,11 +326,11 @@ func c01files(c *core.Ctx) {
 				return missingOf(pr, "sub/b2.yaml")
 			}},
 		{name: "include-nested", files: map[string]string{
-			"compose.yaml":   "include:\n  - path: ./inc/one.yaml\n    env_file: ./one.env\nservices:\n  m:\n    image: m\n",
-			"one.env":        "V=1\n",
-			"inc/one.yaml":   "include:\n  - ./deep/two.yaml\nservices:\n  one:\n    image: \"one:${V}\"\n",
+			"compose.yaml":      "include:\n  - path: ./inc/one.yaml\n    env_file: ./one.env\nservices:\n  m:\n    image: m\n",
+			"one.env":           "V=1\n",
+			"inc/one.yaml":      "include:\n  - ./deep/two.yaml\nservices:\n  one:\n    image: \"one:${V}\"\n",
 			"inc/deep/two.yaml": "services:\n  two:\n    image: two\n",
-			"inc/deep/.env":  "W=2\n"}, main: []string{"compose.yaml"},
+			"inc/deep/.env":     "W=2\n"}, main: []string{"compose.yaml"},
 			deps: func(pr func(string) bool) []string {
 				if !pr("compose.yaml") {
 					return []string{"compose.yaml"}
